@@ -109,7 +109,7 @@ S["C18"] = dict(title="Connection set-up: CONNECT first, clean session once, res
   assumptions=_outasm+["dialer returns the harness connection or an error; TLS and real dialers are not encoded",
     "the abort goroutine of dialAndConnect runs in the engine's cooperative scheduler; no cancellation in this harness (C12 covers it)",
     "write faults on packets longer than 3 bytes are case-split at offsets 0, 1 and len-1"],
-  bounds={"quick":"pending shapes {none, 1 QoS1, 1 PUBREL + 1 QoS2}, client id <= 1 byte, options {none, user+password, will}, reply 0..5 arbitrary bytes then EOF or silence, <= 1 write fault","thorough":"+ shape {2 QoS1, 1 PUBREL, 2 QoS2}, 1 read cut, <= 2 write faults"},
+  bounds={"quick":"pending shapes {none, 1 QoS1, 1 PUBREL + 1 QoS2}, client id <= 1 byte, options {none, user+password, will}, reply 0..5 arbitrary bytes then EOF or silence, <= 1 write fault","thorough":"three configurations: 1 read cut x 1 write fault x 3 shapes; 2 write faults x 3 shapes; 1 write fault x 4 shapes (+ {2 QoS1, 1 PUBREL, 2 QoS2}); their product is outside (did not finish in 20 min)"},
   outside=["TLS / real net dialers","more than one reconnect in a row (each connect starts from an INV state)"])
 S["C10"] = dict(title="The read routine never wedges: failed connections are left and redialed", technique=TECH+"; polling loops bounded by unwinding, a loop that polls an unchanged state is a wedge", harnesses=[
     H("verifH_C10_foreignfailure", "L10.b another goroutine's write failure left connPending while the read routine owes PUBACK/PUBREC/PUBCOMP/PUBREL: ReadSlices must return or redial", T({"spin":24}), T({"spin":48}), ("redialed",)),
